@@ -1067,6 +1067,7 @@ def _d_dns(d, off, end, ctx):
       e = _dns_skip_name(b, s, o2 + 10 + rdl, off, "dns rdata name")
       d.check("dns.rdlength", o2 + 8, 2, e - (o2 + 10))
     l["f"]["rr%d" % i] = (o, o2 + 10 + rdl - o)
+    l["f"]["rr%d_rdlen" % i] = (o2 + 8, 2)
     o = o2 + 10 + rdl
   if o != end:
     d.checks.append({"name": "dns.counts", "off": off + 4, "size": 8, "got": b[off + 4:off + 12].hex(),
@@ -1202,6 +1203,7 @@ def _d_igmp(d, off, end, ctx):
       l["f"]["rec%d" % i] = (o, 8 + 4 * ns + auxl)
       d.slots.append(("igmprec", o, 8 + 4 * ns + auxl))
       l["f"]["rec%d_nsrc" % i] = (o + 2, 2)
+      l["f"]["rec%d_auxlen" % i] = (o + 1, 1)
       o += 8 + 4 * ns + auxl
     d.payload = (o, end)
   else:
@@ -1352,6 +1354,7 @@ def catalog(n=6):
     ("ipv4-tcp-unkopt", [_eth(), _ip4(), {"t": "tcp", "opts": [{"k": "unk", "type": 254, "data": b"\x01\x02"}]}, P]),
     ("ipv4-tcp-mpcap", [_eth(), _ip4(), {"t": "tcp", "opts": [{"k": "mpcap", "flags": 0x81, "skey": b"12345678"}]}, P]),
     ("ipv4-tcp-mpjoin", [_eth(), _ip4(), {"t": "tcp", "opts": [{"k": "mpjoin", "phase": 1, "addr_id": 2, "rtoken": b"abcd", "srand": b"efgh"}]}, P]),
+    ("ipv4-tcp-mpdss-max", [_eth(), _ip4(), {"t": "tcp", "flags": 0x10, "opts": [{"k": "mpdss", "flags": 0x1f, "ack": 2 ** 40, "dsn": 2 ** 41, "seq": 7, "length": 6, "csum": 5}]}, P]),
     ("ipv4-tcp-mpdss", [_eth(), _ip4(), {"t": "tcp", "opts": [{"k": "mpdss", "flags": 5, "ack": 9, "dsn": 8, "seq": 7, "length": 6, "csum": 5}]}, P]),
     ("ipv4-icmp-echo", [_eth(), _ip4(), {"t": "icmp", "type": 8}, {"t": "echo", "id": 1, "seq": 2}, P]),
     ("ipv4-icmp-unreach", [_eth(), _ip4(), {"t": "icmp", "type": 3, "code": 3}, {"t": "unreach"}] + inner4 + [_raw(0)]),
@@ -1460,7 +1463,7 @@ _LONG = ("ipv4-tcp-opts", "ipv4-tcp-unkopt", "ipv4-tcp-sack", "ipv4-opts-raw", "
          "snap-ipv4-udp", "ipv4-icmp-echo", "ipv6-icmp6-echo")
 
 
-_EMPTY = ("ipv4-tcp-opts", "ipv4-tcp-synopts", "ipv4-tcp-unkopt", "ipv4-tcp-mpcap", "ipv4-tcp-mpjoin", "ipv4-tcp-mpdss", "ipv4-tcp-sack",
+_EMPTY = ("ipv4-tcp-opts", "ipv4-tcp-synopts", "ipv4-tcp-unkopt", "ipv4-tcp-mpcap", "ipv4-tcp-mpjoin", "ipv4-tcp-mpdss", "ipv4-tcp-mpdss-max", "ipv4-tcp-sack",
           "ipv6-tcp", "ipv4-opts-raw", "ipv6-hbh-udp", "ipv4-udp")
 
 
